@@ -2,7 +2,8 @@
 (* Exhaustive configuration of CallCb: every result type class x {callback, extern "Python"}
    x Python body {raises, returns a boundary value, returns an out-of-range value, returns a
    value of the wrong type} x error= {absent, given} x onerror {absent, returns None, returns a
-   convertible value, returns an unconvertible value, raises}.  Base = 4.
+   convertible value, returns an unconvertible value, raises, returns a short list / dict
+   initializer (struct results)}.  Base = 4.
    Each configuration is also printed (<<"CB", ...>>): the replayer executes every one of them
    on real callbacks with real C callers. *)
 EXTENDS CallCb
@@ -67,18 +68,23 @@ Val(n, cls) ==
                         [] cls = "ovf" -> PList(<<PI(1), PI(0 - 1)>>) [] cls = "badtype" -> PNone)
 BodyClasses == {"raise", "ok", "ok2", "ovf", "badtype", "none", "short", "dshort"}
 StructRts == {"sA", "sB", "sE"}
-OnerrClasses == {"absent", "none", "raise", "ok", "ovf"}
+\* "short" / "dshort": onerror returns a short list / dict initializer (struct results only).  With
+\* error= given, Val(n, "err") is non-zero in every field, so "the fields onerror's value does not
+\* name are zero" is distinguishable from "they keep the error value's bytes".
+OnerrClasses == {"absent", "none", "raise", "ok", "ovf", "short", "dshort"}
+OnerrValues == {"ok", "ovf", "short", "dshort"}
 AllCfgs == {[mode |-> m, rtn |-> n, rt |-> Ty(n), bcls |-> b, ocls |-> o,
             body |-> IF b = "raise" THEN "raise" ELSE "ret",
             retv |-> IF b = "raise" THEN PNone ELSE Val(n, b),
             haserr |-> h, errv |-> Val(n, "err"),
-            onerr |-> IF o \in {"ok", "ovf"} THEN "value" ELSE o,
-            onv |-> IF o \in {"ok", "ovf"} THEN Val(n, o) ELSE PNone] :
+            onerr |-> IF o \in OnerrValues THEN "value" ELSE o,
+            onv |-> IF o \in OnerrValues THEN Val(n, o) ELSE PNone] :
               m \in {"callback", "extern"}, n \in RtNames, b \in BodyClasses,
               h \in BOOLEAN, o \in OnerrClasses}
 \* (a short list / dict initializer exists only for struct results)
 \* (libffi has no complex types: ffi.callback() refuses them; extern "Python" supports them)
 MCCfgs == {c \in AllCfgs : /\ ~(c.rtn = "void" /\ c.haserr) /\ (c.bcls \in {"short", "dshort"} => c.rtn \in StructRts)
+                           /\ (c.ocls \in {"short", "dshort"} => c.rtn \in StructRts)
                            /\ ~(c.mode = "callback" /\ c.rtn \in {"cf", "cd"})}
 \* a slice of the product, enough to reject the broken variants quickly
 SmallCfgs == {c \in MCCfgs : c.rtn \in {"i8", "u16", "sA"}}
